@@ -2568,14 +2568,18 @@ impl VmGreenThread {
 
     // TODO: this is not very incremental.
     fn start_mark_phase(&mut self) {
+        self.mark_roots();
+
+        self.gc_state = GcState::Marking;
+    }
+
+    fn mark_roots(&mut self) {
         // mark roots gray
         for v in self.value_stack.iter() {
             Self::mark(v, &mut self.gray_stack, self.gc_visited);
         }
         Self::mark(&self.string_operand1, &mut self.gray_stack, self.gc_visited);
         Self::mark(&self.string_operand2, &mut self.gray_stack, self.gc_visited);
-
-        self.gc_state = GcState::Marking;
     }
 
     fn mark(v: &Value, gray_stack: &mut Vec<*mut ObjectHeader>, gc_visited: bool) {
@@ -2645,7 +2649,14 @@ impl VmGreenThread {
             }
         }
         if self.gray_stack.is_empty() {
-            self.gc_state = GcState::Sweeping { index: 0 };
+            // The write barrier only covers stores into heap objects. Since the root scan the
+            // program may have moved a pointer to a still-white object from the heap to the stack
+            // (array pop, element or field read followed by an overwrite), so marking is only
+            // finished once a re-scan of the roots finds nothing new.
+            self.mark_roots();
+            if self.gray_stack.is_empty() {
+                self.gc_state = GcState::Sweeping { index: 0 };
+            }
         }
     }
 
